@@ -1,9 +1,6 @@
 import Pendulum.Proofs.C15
 import Pendulum.Gen.RsHelpers
 import Pendulum.Proofs.LocalTime
-import Pendulum.Proofs.LocalTimeGen
-import Pendulum.Proofs.GettersRef
-import Pendulum.Drv.C15
 import Pendulum.Model.WeekNav
 /-! # C15 — calendar primitives agree with the proleptic Gregorian calendar, both backends
 
@@ -14,7 +11,6 @@ Property theorems only. `Gen.*` are regenerated from `/repo/src/pendulum/_helper
 `rust/src/helpers.rs::local_time` (tools/gen_localtime.py); `LocalTime.localTime` is the hand model they are tied to. -/
 namespace Pendulum.Props.C15
 open Pendulum Pendulum.Cal Pendulum.C15
-open Pendulum.GettersGen (ValidD refExt)
 
 /-- `is_leap` is the Gregorian rule, every integer year -/
 theorem is_leap_iff (y : Int) : Gen.is_leap y = Cal.isLeap y := by
@@ -199,347 +195,5 @@ theorem local_time_date (t off : Int) :
 theorem local_time_rs_eq_py (t off : Int) :
     LocalTime.localTime true LocalTime.rsTbl t off = LocalTime.localTime false LocalTime.pyTbl t off :=
   LocalTime.localTime_rs_eq t off
-
-/-! ### `local_time` as regenerated from the two sources -/
-
-/-- **source = model, both backends**: the definitions regenerated from `_helpers.py::local_time` and from
-    `rust/src/helpers.rs::local_time` (statement by statement, loops from their own bodies) equal the hand model for
-    ALL integer timestamps and offsets — no range hypothesis -/
-theorem local_time_source_eq_model :
-    (∀ t off : Int, Gen.py_local_time t off = LocalTime.localTime false LocalTime.pyTbl t off) ∧
-    (∀ t off : Int, Gen.rs_local_time t off = LocalTime.localTime true LocalTime.rsTbl t off) :=
-  ⟨LocalTimeGen.py_local_time_eq_model, LocalTimeGen.rs_local_time_eq_model⟩
-
-/-- the cut of the generated `while` loops (64) is immaterial: every cut from 40 on gives the same result, i.e. all four
-    loops of both sources are left through their own condition, for every input -/
-theorem local_time_source_cut_immaterial (F : Nat) (hF : 40 ≤ F) (t off : Int) :
-    Gen.py_local_time_fuel F t off = Gen.py_local_time t off ∧ Gen.rs_local_time_fuel F t off = Gen.rs_local_time t off :=
-  ⟨LocalTimeGen.py_local_time_fuel_indep F hF t off, LocalTimeGen.rs_local_time_fuel_indep F hF t off⟩
-
-/-- **`local_time_spec` about the regenerated Python code**: valid civil date with ordinal
-    `ordinal(1970-01-01) + ⌊(t+off)/86400⌋`, h:m:s = `(t+off) mod 86400`, every integer `t`, `off` -/
-theorem local_time_source_spec (t off : Int) :
-    let r := Gen.py_local_time t off
-    validDate r.1 r.2.1 r.2.2.1 ∧ ymd2ord r.1 r.2.1 r.2.2.1 = epochOrd + (t + off) / 86400 ∧
-    r.2.2.2.1 * 3600 + r.2.2.2.2.1 * 60 + r.2.2.2.2.2 = (t + off) % 86400 ∧
-    0 ≤ r.2.2.2.1 ∧ r.2.2.2.1 < 24 ∧ 0 ≤ r.2.2.2.2.1 ∧ r.2.2.2.2.1 < 60 ∧ 0 ≤ r.2.2.2.2.2 ∧ r.2.2.2.2.2 < 60 := by
-  rw [LocalTimeGen.py_local_time_eq_model]
-  exact LocalTime.localTime_py_spec t off
-
-/-- the same about the regenerated Rust code -/
-theorem local_time_source_rs_spec (t off : Int) :
-    let r := Gen.rs_local_time t off
-    validDate r.1 r.2.1 r.2.2.1 ∧ ymd2ord r.1 r.2.1 r.2.2.1 = epochOrd + (t + off) / 86400 ∧
-    r.2.2.2.1 * 3600 + r.2.2.2.2.1 * 60 + r.2.2.2.2.2 = (t + off) % 86400 ∧
-    0 ≤ r.2.2.2.1 ∧ r.2.2.2.1 < 24 ∧ 0 ≤ r.2.2.2.2.1 ∧ r.2.2.2.2.1 < 60 ∧ 0 ≤ r.2.2.2.2.2 ∧ r.2.2.2.2.2 < 60 := by
-  rw [LocalTimeGen.rs_local_time_eq_model, LocalTime.localTime_rs_eq]
-  exact LocalTime.localTime_py_spec t off
-
-/-- the civil date computed by the regenerated Python code is *the* date with that ordinal -/
-theorem local_time_source_date (t off : Int) :
-    let r := Gen.py_local_time t off
-    (r.1, r.2.1, r.2.2.1) = ord2ymd (epochOrd + (t + off) / 86400) := by
-  rw [LocalTimeGen.py_local_time_eq_model]
-  exact local_time_date t off
-
-/-- **`local_time_rs_eq_py` about the regenerated code**: the Rust source and the Python source compute the same
-    broken-down time for every integer timestamp and offset -/
-theorem local_time_source_rs_eq_py (t off : Int) : Gen.rs_local_time t off = Gen.py_local_time t off := by
-  rw [LocalTimeGen.rs_local_time_eq_model, LocalTimeGen.py_local_time_eq_model]
-  exact LocalTime.localTime_rs_eq t off
-
-/-! ### Date getters that are computed by pendulum itself -/
-
-/-- `week_of_month = ceil((day + first_of_month.isoweekday() - 1) / 7)` as integer arithmetic: the 1-based index of the
-    Monday-started calendar row that contains the day -/
-theorem week_of_month_rows (d wd1 : Int) (hd : 1 ≤ d) (hw : 1 ≤ wd1 ∧ wd1 ≤ 7) :
-    (d + wd1 - 1 + 6) / 7 = (d + wd1 - 2) / 7 + 1 := by omega
-
-/-- `quarter = ceil(month / 3)` as integer arithmetic -/
-theorem quarter_spec (m : Int) (hm : 1 ≤ m ∧ m ≤ 12) : (m + 2) / 3 = (m - 1) / 3 + 1 ∧ 1 ≤ (m + 2) / 3 ∧ (m + 2) / 3 ≤ 4 := by
-  omega
-
-
-/-! ### the getters as regenerated from date.py / datetime.py / day.py / helpers.py (tools/gen_getters.py)
-
-`Gen.Getters.date_<m> E self` / `dt_<m> E self` are regenerated statement by statement on every run; `E : Ext O` holds what
-is not pendulum source (the standard library, other pendulum modules). `GettersGen.StdOk E` says that the standard
-library's calendar functions are the reference calendar `Cal` on valid dates of years 1..9999, `DateOk` / `DtOk` what the
-hand models say about intervals, `add`, comparisons; `GettersGen.refExt` satisfies all of them. -/
-
-section Getters
-open Pendulum.Gen.Getters Pendulum.GettersGen Pendulum.Getters
-variable {O : Type}
-
-/-- **source = specification, all eight getters of the property**: on every valid date of years 1..9999 the regenerated
-    `day_of_week`, `day_of_year`, `week_of_year`, `week_of_month`, `days_in_month`, `quarter`, `is_leap_year`,
-    `is_long_year` are the standard library's proleptic Gregorian answers -/
-theorem getters_source_eq_model (E : Ext O) (hE : StdOk E) (d : D) (hv : ValidD d) :
-    date_day_of_week E d = .ok (isoweekday d.year d.month d.day - 1) ∧
-    date_day_of_year E d = daysBeforeMonth (isLeap d.year) d.month + d.day ∧
-    date_week_of_year E d = (isoCalendar d.year d.month d.day).2.1 ∧
-    date_week_of_month E d = (d.day + isoweekday d.year d.month 1 - 2) / 7 + 1 ∧
-    date_days_in_month E d = daysInMonth d.year d.month ∧
-    date_quarter E d = (d.month - 1) / 3 + 1 ∧
-    date_is_leap_year E d = isLeap d.year ∧
-    date_is_long_year E d = decide (isoWeeksInYear d.year = 53) :=
-  ⟨day_of_week_eq E hE d hv, day_of_year_eq E hE d hv, week_of_year_eq E hE d hv, week_of_month_eq E hE d hv,
-   days_in_month_eq E hE d hv, quarter_eq E d, is_leap_year_eq E hE d, is_long_year_eq E hE d hv⟩
-
-theorem day_of_week_source_eq_model (E : Ext O) (hE : StdOk E) (d : D) (hv : ValidD d) :
-    date_day_of_week E d = .ok (dayOfWeek d.year d.month d.day) := day_of_week_eq E hE d hv
-
-theorem day_of_year_source_eq_model (E : Ext O) (hE : StdOk E) (d : D) (hv : ValidD d) :
-    date_day_of_year E d = dayOfYear d.year d.month d.day ∧
-    date_day_of_year E d = Gen.date_day_of_year (isLeap d.year) d.month d.day := by
-  refine ⟨day_of_year_eq E hE d hv, ?_⟩
-  rw [day_of_year_eq E hE d hv, day_of_year_spec _ _ _ ⟨hv.2.2.1, hv.2.2.2.1⟩]; rfl
-
-theorem week_of_year_source_eq_model (E : Ext O) (hE : StdOk E) (d : D) (hv : ValidD d) :
-    date_week_of_year E d = (isoCalendar d.year d.month d.day).2.1 := week_of_year_eq E hE d hv
-
-theorem week_of_month_source_eq_model (E : Ext O) (hE : StdOk E) (d : D) (hv : ValidD d) :
-    date_week_of_month E d = weekOfMonth d.year d.month d.day := week_of_month_eq E hE d hv
-
-theorem days_in_month_source_eq_model (E : Ext O) (hE : StdOk E) (d : D) (hv : ValidD d) :
-    date_days_in_month E d = daysInMonth d.year d.month := days_in_month_eq E hE d hv
-
-theorem quarter_source_eq_model (E : Ext O) (d : D) : date_quarter E d = quarter d.month := quarter_eq E d
-
-theorem is_leap_year_source_eq_model (E : Ext O) (hE : StdOk E) (d : D) :
-    date_is_leap_year E d = isLeap d.year ∧ date_is_leap_year E d = Gen.is_leap d.year :=
-  ⟨is_leap_year_eq E hE d, by rw [is_leap_year_eq E hE d, is_leap_iff]⟩
-
-/-- `Date.is_long_year()` (via December 28th) agrees with the helper `is_long_year` of `_helpers.py` -/
-theorem is_long_year_source_eq_model (E : Ext O) (hE : StdOk E) (d : D) (hv : ValidD d) :
-    date_is_long_year E d = decide (isoWeeksInYear d.year = 53) ∧ date_is_long_year E d = Gen.is_long_year d.year := by
-  refine ⟨is_long_year_eq E hE d hv, ?_⟩
-  rw [is_long_year_eq E hE d hv]
-  by_cases h : isoWeeksInYear d.year = 53
-  · rw [decide_eq_true h, (is_long_year_iff d.year).mpr h]
-  · rw [decide_eq_false h]
-    cases hl : Gen.is_long_year d.year
-    · rfl
-    · exact absurd ((is_long_year_iff d.year).mp hl) h
-
-/-- **source = the model the correspondence run tests**: the list of regenerated getters is the answer of the C15
-    driver (`Drv/C15.lean::getters`, compared with the real code on every run) -/
-theorem getters_source_eq_driver (E : Ext O) (hE : StdOk E) (d : D) (hv : ValidD d) :
-    [date_day_of_week E d, .ok (date_day_of_year E d), .ok (date_week_of_year E d), .ok (date_week_of_month E d),
-     .ok (date_days_in_month E d), .ok (date_quarter E d), .ok (Drv.b2i (date_is_leap_year E d)),
-     .ok (Drv.b2i (date_is_long_year E d))] = (Drv.C15.getters d.year d.month d.day).map Except.ok := by
-  obtain ⟨h1, h2, h3, h4, h5, h6, h7, h8⟩ := getters_source_eq_model E hE d hv
-  have e2 := (day_of_year_source_eq_model E hE d hv).2
-  have hr := isoweekday_range d.year d.month 1
-  rw [h1, e2, h3, h4, h5, h6, h7, h8, dec28_week d.year |>.symm]
-  simp only [Drv.C15.getters, List.map_cons, List.map_nil]
-  have a : (d.day + isoweekday d.year d.month 1 - 2) / 7 + 1 = (d.day + isoweekday d.year d.month 1 - 1 + 6) / 7 := by omega
-  have b : (d.month - 1) / 3 + 1 = (d.month + 2) / 3 := by omega
-  rw [a, b]
-  rcases hi : isoCalendar d.year d.month d.day with ⟨i1, i2, i3⟩
-  rcases hj : isoCalendar d.year 12 28 with ⟨j1, j2, j3⟩
-  have e53 : (j2 == 53) = decide (j2 = 53) := by rw [Bool.eq_iff_iff]; simp
-  rw [e53]
-
-/-- **`WeekDay`** (day.py): MONDAY = 0 … SUNDAY = 6, `WeekDay(v)` is defined exactly for 0..6; `day_of_week` maps the
-    standard library's `weekday()` through it: Monday = 0 … Sunday = 6 of the proleptic Gregorian calendar -/
-theorem weekday_enum_source :
-    (∀ p : String × Int, p ∈ WeekDay_members ↔
-      p ∈ [("MONDAY", 0), ("TUESDAY", 1), ("WEDNESDAY", 2), ("THURSDAY", 3), ("FRIDAY", 4), ("SATURDAY", 5),
-           ("SUNDAY", (6 : Int))]) ∧
-    (∀ v : Int, WeekDay_call v = if 0 ≤ v ∧ v ≤ 6 then .ok v else .error "ValueError") ∧
-    (∀ (E : Ext O) (_ : StdOk E) (d : D) (_ : ValidD d), date_day_of_week E d = .ok (isoweekday d.year d.month d.day - 1)) :=
-  ⟨weekday_members, weekday_call, fun E hE d hv => day_of_week_eq E hE d hv⟩
-
-/-- the assumption `Gen/StartOf.lean` / `Gen/WeekNav.lean` make about their parameter `weekday` (C12, C16: the readings
-    `weekday_at n := dow (ordinal + n)`, `weekday d := dow (ordinal d)`) is what the regenerated `day_of_week` computes -/
-theorem day_of_week_source_eq_dow (E : Ext O) (hE : StdOk E) (d : D) (hv : ValidD d) :
-    date_day_of_week E d = .ok (StartOf.dow (ymd2ord d.year d.month d.day)) ∧
-    date_day_of_week E d = .ok (WeekNav.dow (ymd2ord d.year d.month d.day)) := by
-  rw [day_of_week_eq E hE d hv]
-  simp only [dayOfWeek, isoweekday, isoweekdayOrd, StartOf.dow, WeekNav.dow]
-  exact ⟨by congr 1; omega, by congr 1; omega⟩
-
-/-- **week globals** (helpers.py, __init__.py): `week_starts_at` / `week_ends_at` store exactly a weekday 0..6 and raise
-    ValueError otherwise; the initial week is Monday … Sunday — so the week configuration always meets the range
-    assumption `0 ≤ _WEEK_STARTS_AT, _WEEK_ENDS_AT ≤ 6` of the C12 tie theorems -/
-theorem week_globals_source_eq_model (E : Ext O) (w : Int) :
-    (helpers_week_starts_at E w = match setWeekDay w with
-      | some v => .ok ⟨"_WEEK_STARTS_AT", v⟩ | none => .error "ValueError") ∧
-    (helpers_week_ends_at E w = match setWeekDay w with
-      | some v => .ok ⟨"_WEEK_ENDS_AT", v⟩ | none => .error "ValueError") ∧
-    (∀ g, (helpers_week_starts_at E w = .ok g ∨ helpers_week_ends_at E w = .ok g) → 0 ≤ g.value ∧ g.value ≤ 6) ∧
-    init_WEEK_STARTS_AT = 0 ∧ init_WEEK_ENDS_AT = 6 := by
-  refine ⟨week_starts_at_eq E w, week_ends_at_eq E w, ?_, week_globals_init.1, week_globals_init.2⟩
-  intro g hg
-  rw [week_starts_at_eq, week_ends_at_eq] at hg
-  unfold setWeekDay at hg
-  by_cases h : 0 ≤ w ∧ w ≤ 6
-  · simp only [h, and_self, if_true] at hg
-    rcases hg with hg | hg <;> (cases hg; exact h)
-  · simp only [h, if_false] at hg
-    rcases hg with hg | hg <;> cases hg
-
-/-- **`closest` / `farthest`**, Date (two candidates, the first only when strictly closer / farther — in days) and
-    DateTime (any number of candidates after `instance()`: Python's `min` / `max` over `(abs(self - dt), dt)` is the model
-    `pickBy` — the first candidate at the smallest / largest distance; none → ValueError) -/
-theorem closest_farthest_source_eq_model (E : Ext O) (yb : D → D → Int) (hD : DateOk E yb) (instant : O → Int)
-    (hT : DtOk E instant) (self dt1 dt2 : D)
-    (hs : ValidD self) (h1 : ValidD dt1) (h2 : ValidD dt2) (I : Inst O) (dts : List O) :
-    (date_closest E self dt1 dt2 = (if absI (ordD dt1 - ordD self) < absI (ordD dt2 - ordD self) then dt1 else dt2) ∧
-     ordD (date_closest E self dt1 dt2) = closestDate (ordD self) (ordD dt1) (ordD dt2)) ∧
-    (date_farthest E self dt1 dt2 = (if absI (ordD dt1 - ordD self) > absI (ordD dt2 - ordD self) then dt1 else dt2) ∧
-     ordD (date_farthest E self dt1 dt2) = farthestDate (ordD self) (ordD dt1) (ordD dt2)) ∧
-    dt_closest E I dts =
-      (match pickBy (fun c => absI (instant I.obj - instant c)) false (dts.map E.dt_instance) with
-       | none => .error "ValueError" | some c => .ok c) ∧
-    dt_farthest E I dts =
-      (match pickBy (fun c => absI (instant I.obj - instant c)) true (dts.map E.dt_instance) with
-       | none => .error "ValueError" | some c => .ok c) :=
-  ⟨date_closest_eq E yb hD self dt1 dt2 hs h1 h2, date_farthest_eq E yb hD self dt1 dt2 hs h1 h2,
-   dt_closest_eq E instant hT I dts, dt_farthest_eq E instant hT I dts⟩
-
-/-- what `DateTime.closest` / `farthest` return is one of the candidates (after `instance()`), and no candidate is
-    strictly closer / farther from the instance (as elapsed time) -/
-theorem closest_farthest_source_spec (E : Ext O) (instant : O → Int) (hE : DtOk E instant) (I : Inst O) (dts : List O) (r : O) :
-    (dt_closest E I dts = .ok r → r ∈ dts.map E.dt_instance ∧
-      ∀ c ∈ dts, absI (instant I.obj - instant r) ≤ absI (instant I.obj - instant c)) ∧
-    (dt_farthest E I dts = .ok r → r ∈ dts.map E.dt_instance ∧
-      ∀ c ∈ dts, absI (instant I.obj - instant c) ≤ absI (instant I.obj - instant r)) := by
-  constructor
-  · intro h
-    rw [dt_closest_eq E instant hE] at h
-    cases hp : pickBy (fun c => absI (instant I.obj - instant c)) false (dts.map E.dt_instance) with
-    | none => rw [hp] at h; cases h
-    | some c =>
-      rw [hp] at h
-      cases h
-      obtain ⟨hm, hall⟩ := pickBy_spec _ _ _ _ hp
-      refine ⟨hm, fun c hc => ?_⟩
-      have := hall (E.dt_instance c) (List.mem_map_of_mem hc)
-      simp only [Bool.false_eq_true, if_false, hE.instance_instant] at this
-      exact this
-  · intro h
-    rw [dt_farthest_eq E instant hE] at h
-    cases hp : pickBy (fun c => absI (instant I.obj - instant c)) true (dts.map E.dt_instance) with
-    | none => rw [hp] at h; cases h
-    | some c =>
-      rw [hp] at h
-      cases h
-      obtain ⟨hm, hall⟩ := pickBy_spec _ _ _ _ hp
-      refine ⟨hm, fun c hc => ?_⟩
-      have := hall (E.dt_instance c) (List.mem_map_of_mem hc)
-      simp only [if_true, hE.instance_instant] at this
-      exact this
-
-/-- **`average`**: Date — the date `int(days / 2)` days away (half of the signed day difference, rounded towards the
-    instance); DateTime — the instant moved by `⌊elapsed µs / 2⌋`; the default argument is today / now -/
-theorem average_source_eq_model (E : Ext O) (yb : D → D → Int) (hD : DateOk E yb) (instant : O → Int) (hT : DtOk E instant)
-    (self : D) (dt : Option D) (hs : ValidD self) (hd : ValidD (dt.getD E.date_today))
-    (hr : ValidD (dOf (averageDate (ordD self) (ordD (dt.getD E.date_today))))) (I : Inst O) (odt : Option O) :
-    date_average E self dt = dOf (averageDate (ordD self) (ordD (dt.getD E.date_today))) ∧
-    instant (dt_average E I odt) = averageInstant (instant I.obj) (instant (odt.getD (E.dt_now (dt_tz E I)))) :=
-  ⟨date_average_eq E yb hD self dt hs hd hr, dt_average_eq E instant hT I odt⟩
-
-/-- `age` (signed full years to today), `is_future` / `is_past` / `is_same_day`, `is_anniversary` / `is_birthday` of Date -/
-theorem date_relations_source_eq_model (E : Ext O) (yb : D → D → Int) (hD : DateOk E yb) (self dt : D) (odt : Option D)
-    (hs : ValidD self) (hd : ValidD dt) :
-    date_age E self = yb self E.date_today ∧
-    date_is_future E self = decide (ordD self > ordD E.date_today) ∧
-    date_is_past E self = decide (ordD self < ordD E.date_today) ∧
-    date_is_same_day E self dt = decide (self = dt) ∧
-    date_is_anniversary E self odt =
-      decide (self.month = (odt.getD E.date_today).month ∧ self.day = (odt.getD E.date_today).day) ∧
-    date_is_birthday E self odt = date_is_anniversary E self odt :=
-  ⟨date_age_eq E yb hD self hs, (date_compare_eq E yb hD self dt hs hd).1, (date_compare_eq E yb hD self dt hs hd).2.1,
-   (date_compare_eq E yb hD self dt hs hd).2.2, (date_is_anniversary_eq E self odt).1, (date_is_anniversary_eq E self odt).2⟩
-
-/-- the DateTime additions: `get_offset` / `offset` (whole seconds, None when naive), `offset_hours`, `float_timestamp`,
-    `timezone` / `tz` / `timezone_name`, `is_utc` / `is_dst` / `is_local`, `date()`, `is_long_year` -/
-theorem datetime_getters_source_eq_model (E : Ext O) (instant : O → Int) (hT : DtOk E instant) (I : Inst O)
-    (hy : 1 ≤ I.year ∧ I.year ≤ 9999) :
-    dt_get_offset E I = I.utcoffset.map (fun td => Int.tdiv td 1000000) ∧ dt_offset E I = dt_get_offset E I ∧
-    dt_offset_hours E I = I.utcoffset.map (fun td => ((Int.tdiv td 1000000, 3600) : Frac)) ∧
-    dt_float_timestamp E I = ((I.timestamp, 1000000) : Frac) ∧
-    dt_timezone E I = (if I.tzinfo.isPendulum then I.tzinfo else TzInfo.none) ∧ dt_tz E I = dt_timezone E I ∧
-    dt_timezone_name E I = (match I.tzinfo with | .pendulum n => some n | _ => none) ∧
-    dt_is_utc E I = (match I.utcoffset with | none => false | some td => decide (Int.tdiv td 1000000 = 0)) ∧
-    dt_is_dst E I = (match I.dst with | none => true | some td => decide (td ≠ 0)) ∧
-    dt_is_local E I = (dt_get_offset E I == dt_get_offset E (E.view (E.dt_in_timezone I.obj E.local_timezone))) ∧
-    dt_date E I = ⟨I.year, I.month, I.day⟩ ∧
-    dt_is_long_year E I = decide (isoWeeksInYear I.year = 53) :=
-  ⟨(dt_offset_eq E I).1, (dt_offset_eq E I).2.1, (dt_offset_eq E I).2.2.1, (dt_offset_eq E I).2.2.2,
-   (dt_timezone_eq E I).1, (dt_timezone_eq E I).2.1, (dt_timezone_eq E I).2.2,
-   (dt_flags_eq E I).1, (dt_flags_eq E I).2.1, (dt_flags_eq E I).2.2, dt_date_eq E I, dt_is_long_year_eq E instant hT I hy⟩
-
-/-- DateTime `is_same_day` / `is_anniversary` (same civil date / same month and day as `instance(dt)`), `is_future` /
-    `is_past` / `age` (against now in the instance's timezone) -/
-theorem datetime_relations_source_eq_model (E : Ext O) (yb : D → D → Int) (hD : DateOk E yb) (instant : O → Int)
-    (hT : DtOk E instant) (I : Inst O) (hself : E.view I.obj = I) (dt : O) (odt : Option O)
-    (hs : ValidD ⟨I.year, I.month, I.day⟩)
-    (hn : ValidD ⟨(E.view (E.dt_now (dt_tz E I))).year, (E.view (E.dt_now (dt_tz E I))).month,
-      (E.view (E.dt_now (dt_tz E I))).day⟩) :
-    dt_is_same_day E I dt = decide (I.year = (E.view (E.dt_instance dt)).year ∧
-      I.month = (E.view (E.dt_instance dt)).month ∧ I.day = (E.view (E.dt_instance dt)).day) ∧
-    dt_is_anniversary E I odt =
-      decide (I.month = (E.view (E.dt_instance (odt.getD (E.dt_now (dt_tz E I))))).month ∧
-              I.day = (E.view (E.dt_instance (odt.getD (E.dt_now (dt_tz E I))))).day) ∧
-    dt_is_future E I = decide (E.dt_cmp I.obj (E.dt_now (dt_timezone E I)) > 0) ∧
-    dt_is_past E I = decide (E.dt_cmp I.obj (E.dt_now (dt_timezone E I)) < 0) ∧
-    dt_age E I = yb ⟨I.year, I.month, I.day⟩
-      ⟨(E.view (E.dt_now (dt_tz E I))).year, (E.view (E.dt_now (dt_tz E I))).month, (E.view (E.dt_now (dt_tz E I))).day⟩ :=
-  ⟨(dt_same_day_eq E instant hT I hself dt odt).1, (dt_same_day_eq E instant hT I hself dt odt).2,
-   (dt_now_eq E yb hD I hs hn).1, (dt_now_eq E yb hD I hs hn).2.1, (dt_now_eq E yb hD I hs hn).2.2⟩
-
-/-- the string methods: Date `to_date_string` / `to_formatted_date_string` (strftime patterns), `__repr__`, `__str__` /
-    `for_json` (isoformat), `__format__`; DateTime `__str__` (`isoformat(" ")`) and `__repr__` -/
-theorem strings_source_eq_model (E : Ext O) (self : D) (spec : String) (I : Inst O) :
-    (date_to_date_string E self = E.date_strftime self "%Y-%m-%d" ∧
-     date_to_formatted_date_string E self = E.date_strftime self "%b %d, %Y" ∧
-     date_repr E self = E.date_clsname ++ "(" ++ toString self.year ++ ", " ++ toString self.month ++ ", "
-       ++ toString self.day ++ ")" ∧
-     date_str E self = E.date_isoformat self ∧ date_for_json E self = E.date_isoformat self ∧
-     date_format_spec E self spec =
-       (if spec.length > 0 then (if py_str_contains spec "%" then E.date_strftime self spec else E.date_format self spec none)
-        else E.date_isoformat self)) ∧
-    dt_str E I = E.dt_isoformat I.obj (some " ") ∧
-    dt_repr E I = I.clsname ++ "(" ++ toString I.year ++ ", " ++ toString I.month ++ ", " ++ toString I.day
-      ++ ", " ++ toString I.hour ++ ", " ++ toString I.minute ++ ", " ++ toString I.second
-      ++ (if I.microsecond ≠ 0 then ", " ++ toString I.microsecond else "")
-      ++ (if I.tzinfo.isNone then "" else ", tzinfo=" ++ E.tz_repr I.tzinfo) ++ ")" :=
-  ⟨date_strings_eq E self spec, (dt_str_repr_eq E I).1, (dt_str_repr_eq E I).2⟩
-
-/-- the hypotheses of the theorems above are jointly satisfiable (`refExt`: datetimes = UTC instants, the standard
-    library = `Cal`) -/
-theorem getters_hypotheses_satisfiable :
-    StdOk refExt ∧ DateOk refExt (fun a b => b.year - a.year) ∧ DtOk refExt (fun o => o) ∧
-    (∀ o : Int, refExt.view (refExt.view o).obj = refExt.view o) :=
-  ⟨refExt_std, refExt_date, refExt_dt, refExt_view_obj⟩
-
-end Getters
-
-/-! non-vacuity: the hypotheses are met by ordinary dates -/
-example : LocalTime.localTime false LocalTime.pyTbl 951782400 3600 = (2000, 2, 29, 1, 0, 0) := by decide +kernel
-example : LocalTime.localTime true LocalTime.rsTbl (-1) 0 = (1969, 12, 31, 23, 59, 59) := by decide +kernel
-example : Gen.py_local_time 951782400 3600 = (2000, 2, 29, 1, 0, 0) := by decide +kernel
-example : Gen.rs_local_time (-1) 0 = (1969, 12, 31, 23, 59, 59) := by decide +kernel
-example : Gen.rs_local_time (-62135596800) (-86399) = (0, 12, 31, 0, 0, 1) ∧ Gen.py_local_time 253402300799 86399 = (10000, 1, 1, 23, 59, 58) := by decide +kernel
-example : (40 : Nat) ≤ 40 ∧ Gen.py_local_time_fuel 40 1 0 = (1970, 1, 1, 0, 0, 1) := by decide +kernel
-example : (1 : Int) ≤ 2 ∧ (2 : Int) ≤ 12 := by omega
-example : Gen.week_day 2024 2 29 = 4 ∧ isoweekday 2024 2 29 = 4 := by decide
-example : Gen.is_long_year 2020 = true ∧ isoWeeksInYear 2020 = 53 := by decide
-example : Rs.week_day 2024 2 29 = 4 := by decide
-example : ValidD ⟨2024, 2, 29⟩ ∧ (Gen.Getters.date_day_of_week refExt ⟨2024, 2, 29⟩).toOption = some 3 ∧
-    Gen.Getters.date_week_of_month refExt ⟨2024, 2, 29⟩ = 5 ∧ Gen.Getters.date_quarter refExt ⟨2024, 2, 29⟩ = 1 ∧
-    Gen.Getters.date_day_of_year refExt ⟨2024, 12, 31⟩ = 366 ∧ Gen.Getters.date_is_long_year refExt ⟨2020, 1, 1⟩ = true := by
-  decide
-example : Gen.Getters.date_average refExt ⟨2020, 1, 4⟩ (some ⟨2020, 1, 1⟩) = ⟨2020, 1, 3⟩ ∧
-    Gen.Getters.date_closest refExt ⟨2020, 1, 1⟩ ⟨2020, 1, 4⟩ ⟨2019, 12, 29⟩ = ⟨2019, 12, 29⟩ := by decide +kernel
-example : (Gen.Getters.dt_closest refExt (refExt.view 0) [5, 3, -3]).toOption = some 3 ∧
-    (Gen.Getters.dt_farthest refExt (refExt.view 0) [5, -3, 3]).toOption = some 5 ∧
-    (Gen.Getters.dt_farthest refExt (refExt.view 0) []).toOption = none ∧
-    Gen.Getters.dt_average refExt (refExt.view 10) (some 3) = 6 := by decide +kernel
-example : (Gen.Getters.helpers_week_starts_at refExt 7).toOption = none ∧
-    (Gen.Getters.helpers_week_starts_at refExt 6).toOption = some ⟨"_WEEK_STARTS_AT", 6⟩ := by decide
 
 end Pendulum.Props.C15
